@@ -1,5 +1,6 @@
 import CifModel.Lemmas.ParseCBDupX
 import CifModel.Lemmas.ParseCBDupPlain
+import CifModel.Lemmas.ParseCBDupCut
 import CifModel.Props.C15
 import CifModel.Lemmas.ParseCBFuel
 /-
@@ -76,6 +77,32 @@ theorem C15_dup_stop_semantics_without_duplicates (p : Prog) (norm : Str → Str
   rw [C15_dup_is_plain_without_duplicates p norm true d hwn]
   exact C15_stop_semantics_store p norm d hwn
 
+/-- **Stop semantics of the store with duplicates — EVERY program.**  For every well-formed document in which block codes, frame codes,
+    scalar names and loop-header names may repeat in any way, and every handler program (any mixture of CONTINUE, SKIP_CURRENT,
+    SKIP_SIBLINGS, END and error codes), with an accepting error callback: the CIF stored by the parse of `tokensOf d` is
+    `(cDocD p norm d).cif` and the return value is `cResultD p (cDocD p norm d)` (Spec/TraversalDupCut.lean: the document walked in
+    document order, threading the number of handler callbacks delivered AND the content the container in progress holds — a name /
+    code is a duplicate of what is STORED at that moment, so a first occurrence the program skipped does not count; a duplicate scalar
+    gets no item handler and is not stored; the dropped columns of a loop header vanish from the loop the handlers see and the store
+    gets; a repeated frame / block code reopens the existing container, which is pruned again when it reaches its end with CIF_OK).
+    `hdom`: the model does not leave its domain — no loop header met during the parse loses ALL its names (ASSUMPTIONS of C15; the
+    model then answers MALFORMED). -/
+theorem C15_dup_stop_semantics_store (p : Prog) (norm : Str → Str) (d : Doc) (hw : wfDoc d = true)
+    (hdom : (parseCBD p norm true (tokensOf d)).2.1 ≠ MALFORMED) :
+    (parseCBD p norm true (tokensOf d)).2.2 = (cDocD p norm d).cif
+    ∧ (parseCBD p norm true (tokensOf d)).2.1 = cResultD p (cDocD p norm d) := by
+  rw [C15_dup_structural_any p norm true d hw] at hdom ⊢
+  obtain ⟨h1, h2⟩ := xDocD_c p norm d hw hdom
+  exact ⟨h2, h1⟩
+
+/-- the two descriptions agree where both apply: with all-continue handlers the specification for every program stores `dupDenote` -/
+theorem C15_dup_cut_extends_mirror (norm : Str → Str) (d : Doc) (hok : okDoc norm d = true) (hw : wfDoc d = true) :
+    (cDocD allContP norm d).cif = dupDenote norm d := by
+  have hm := C15_dup_all_continue_mirror norm d hok
+  have hdom : (parseCBD allContP norm true (tokensOf d)).2.1 ≠ MALFORMED := by
+    rw [hm]; show OK ≠ MALFORMED; decide
+  rw [← (C15_dup_stop_semantics_store allContP norm d hw hdom).1, hm]
+
 -- ---- non-vacuity / sanity -----------------------------------------------------------------------------------------------------
 
 def C15d_lower (s : Str) : Str := s.map fun c => if 65 ≤ c ∧ c ≤ 90 then c + 32 else c
@@ -105,5 +132,14 @@ example : ((parseCBD (fun k _ => if k = 2 then -1 else 0) C15d_lower true (token
 -- the hypotheses of the dropped-column theorem on this header against a block holding `_a`
 example : slotsOf C15d_lower ⟨[], [{ category := some [], names := [(a!"_a")], packets := [[.unk]] }]⟩
     [(a!"_x"), (a!"_A"), (a!"_y"), (a!"_X")] [] = [some (a!"_x"), none, some (a!"_y"), none] := by decide +kernel
+
+-- the store specification on the document above, kernel-evaluated (the theorem covers every program): two deviations
+def C15d_storeOK (p : Prog) (d : Doc) : Bool :=
+  C15_contsBeq (parseCBD p C15d_lower true (tokensOf d)).2.2 (cDocD p C15d_lower d).cif
+    && decide ((parseCBD p C15d_lower true (tokensOf d)).2.1 = cResultD p (cDocD p C15d_lower d))
+example : (parseCBD (C15_dev2 2 (-1) 9 7) C15d_lower true (tokensOf C15d_doc)).2.1 ≠ MALFORMED
+    ∧ C15d_storeOK (C15_dev2 2 (-1) 9 7) C15d_doc = true ∧ C15d_storeOK (C15_dev2 4 (-2) 10 END) C15d_doc = true := by decide +kernel
+-- the reopened frame and block of `C15_dupDoc` (Props/C15.lean) under a skipping and a stopping program
+example : C15d_storeOK (C15_dev2 3 (-1) 8 (-2)) C15_dupDoc = true ∧ C15d_storeOK (C15_dev1 6 7) C15_dupDoc = true := by decide +kernel
 
 end CifModel
